@@ -142,7 +142,7 @@ def run(shard, rec):
         return secret
 
     for pi in range(shard['programs']):
-        kind = ('int', 'fxp', 'int', 'fld')[pi % 4]
+        kind = ('int', 'fxp', 'fxp', 'fld')[pi % 4]
         sseed = rng.randrange(1 << 30)
         policy = rng.choice(sim.POLICIES)
         case = [shard['name'], pi, kind, policy, sseed]
@@ -167,7 +167,7 @@ def run(shard, rec):
                 return [(type(a).order, int(a.value)) for a in sh]
             scale = 1
         elif kind == 'fxp':
-            spec = fxprogs.gen(rng, m, l=16, f=8, ops=fxprogs.CHEAP, n_steps=(3, 6), features=False)
+            spec = fxprogs.gen(rng, m, l=16, f=8, ops=fxprogs.CHEAP, n_steps=(4, 9), features=False)
             ref = None
 
             async def program(mpc, pid, spec=spec):
